@@ -13,6 +13,7 @@ func ProfileFor(prop, tier string, r *Rng) *Profile {
 			p.BigBatch = true
 		}
 	}
+	p.W[KRegistry] = 0.3
 	scale := func(f float64, kinds ...string) {
 		for _, k := range kinds {
 			p.W[k] *= f
@@ -27,6 +28,7 @@ func ProfileFor(prop, tier string, r *Rng) *Profile {
 		scale(3, KDumpLoad)
 		scale(0.3, KNewObserver, KSet, KSetRel)
 	case "C03":
+		p.SweepEvery = 3
 		scale(3, KSweep, KNewFilter, KSetRel, KRemoveEntity)
 		scale(0.3, KNewObserver, KMisuse)
 	case "C04":
@@ -34,6 +36,7 @@ func ProfileFor(prop, tier string, r *Rng) *Profile {
 		scale(2, KShrink, KReset)
 		scale(0.3, KNewObserver, KMisuse)
 	case "C05":
+		p.SweepEvery = 4
 		scale(3, KRegister, KUnregister, KSweep, KNewFilter, KSetRel, KRemoveEntity, KOpenQuery, KNext)
 		scale(2, KShrink, KReset)
 		scale(0.3, KNewObserver, KMisuse)
@@ -68,7 +71,9 @@ func ProfileFor(prop, tier string, r *Rng) *Profile {
 		scale(3, KRemoveEntity, KRemoveEntities, KNewBatch)
 		scale(0.2, KNewObserver, KMisuse)
 	case "C18":
-		scale(10, KResource)
+		scale(8, KResource)
+		p.W[KRegistry] = 8
+		scale(2, KOpenQuery)
 	case "C12":
 		scale(3, KSetRel, KRemoveEntity, KSweep, KNewFilter, KRegister, KStats, KNext, KOpenQuery)
 		scale(2, KShrink, KReset)
